@@ -104,7 +104,7 @@ fn fam(name: &'static str) -> Family {
         odd_names: false,
         compressible: false,
         strings: false,
-        wide_ints: false,
+        wide_ints: true,
         restarts: true,
         evicts: true,
         bursts: false,
@@ -122,8 +122,8 @@ pub fn all() -> Vec<Box<dyn Suite>> {
             name: "c08_history",
             salt: 0xC08,
             fams: vec![
-                (Family { factors: &[1, 4, 999], ..fam("dense") }, 26),
-                (Family { factors: &[1, 4, 999], tiny_wal: true, bursts: true, max_ops: 10, ..fam("dense-bgflush") }, 22),
+                (fam("dense"), 26),
+                (Family { tiny_wal: true, bursts: true, max_ops: 10, ..fam("dense-bgflush") }, 22),
                 (Family { factors: &[0], max_ops: 8, ..fam("dense-recompact") }, 8),
             ],
             thorough_scale: 8,
@@ -164,7 +164,7 @@ pub fn all() -> Vec<Box<dyn Suite>> {
                 (Family { cols: Cols::VaryWithin, nulls: true, factors: &[999], ..fam("nulls-no-compaction") }, 8),
                 (Family { cols: Cols::VaryWithin, nulls: true, factors: &[0, 1, 4], max_ops: 8, ..fam("nulls-compaction") }, 6),
                 (Family { strings: true, factors: &[1, 4, 999], restarts: false, ..fam("strings") }, 5),
-                (Family { wide_ints: true, factors: &[0, 1, 4], restarts: false, ..fam("wide-ints") }, 4),
+                (Family { factors: &[0, 1, 4], ..fam("wide-ints") }, 4),
                 (Family { strings: true, hex: true, factors: &[0, 1], restarts: false, max_ops: 6, ..fam("hex-strings") }, 3),
                 (Family { strings: true, compressible: true, factors: &[0, 1], restarts: false, max_ops: 6, ..fam("compressible-strings") }, 2),
             ],
